@@ -195,6 +195,7 @@ void pbt_generate(Rng& r, int size, Case& c) {
   int nruns = 1 + (size >= 8 ? (int)r.below(2) : 0) + (size >= 20 ? (int)r.below(2) : 0);
   static const char* const KEYS[] = {"A", "PATH", "HOME", "C20_X", "k", "_", "A1", "C20_MARKER", "LANG"};
   for (int k = 0; k < nruns; ++k) {
+    if (r.chance(20)) { c.add("pair", (long)r.below(1024), (long)r.below(4096), (long)r.below(65536), (long)r.below(16)); continue; }
     if (r.chance(45)) {
       int ne = 1 + (int)r.below(5);
       for (int j = 0; j < ne; ++j) {
@@ -487,6 +488,97 @@ void runOne(const Op& op, Pending& pd, Ctx& ctx, Process*& kept) {
 }
 }  // namespace
 
+namespace {
+// Two children alive at the same time ("pair sel sizes codes flags"): each gets its stdin redirected, reads it to end-of-file and
+// only then echoes it to stdout followed by a pattern; the steps open / write / close(stdin) / read to end-of-file / join of the
+// two are interleaved in a generated order (each child's own order kept). Every such interleaving terminates with a Process
+// implementation whose children depend on nothing but their own pipes: a child must see the end of its stdin when ITS parent end is
+// closed, whatever other children exist, and ending one child must not disturb the streams of the other.
+void runPair(const Op& op, Ctx& ctx) {
+  long sel = op.a[0] < 0 ? -op.a[0] : op.a[0], sizes = op.a[1] < 0 ? -op.a[1] : op.a[1], codes = op.a[2] < 0 ? -op.a[2] : op.a[2], flags = op.a[3] < 0 ? -op.a[3] : op.a[3];
+  static const long PSZ[] = {0, 1, 100, 4096, 65536, 70001};
+  struct Side { Process* p = nullptr; std::string in, expOut, got, report; long code = 0; size_t no = 0; int step = 0; bool errToo = false; uint streams = 0; pid_t pid = 0; } S[2];
+  for (int k = 0; k < 2; ++k) {
+    Side& x = S[k];
+    x.in = pattern((size_t)PSZ[(sizes >> (3 * k)) % 6], 3 + k);
+    x.no = (size_t)PSZ[(sizes >> (6 + 3 * k)) % 6];
+    x.expOut = x.in + pattern(x.no, 1);
+    x.code = (codes >> (8 * k)) & 255;
+    x.errToo = (flags >> k) & 1;
+    x.streams = Process::stdinStream | Process::stdoutStream | (x.errToo ? (uint)Process::stderrStream : 0u);
+    x.report = g_report + (k ? ".B" : ".A");
+    unlink(x.report.c_str());
+    x.p = new Process;
+  }
+  // interleaving: 10 steps, bit i of the selector chooses the side when both still have steps left
+  ctx.label("pair");
+  bool overlapAtClose = false;
+  for (int n = 0; n < 10; ++n) {
+    int k = (sel >> n) & 1;
+    if (S[k].step >= 5) k = 1 - k;
+    Side& x = S[k]; Side& y = S[1 - k];
+    std::string who = k ? "B" : "A";
+    switch (x.step++) {
+      case 0: {
+        char ctl[160]; snprintf(ctl, sizeof ctl, "x%ld,i1,O1,E0,o%zu,e%d,f0,h0", x.code, x.no, x.errToo ? 7 : 0);
+        List<String> lst; lst.append(String("child")); lst.append(String(x.report.data(), x.report.size())); lst.append(String(ctl));
+        Map<String, String> env;
+        bool ok;
+        if ((flags >> (2 + k)) & 1) { std::string cl = g_child + " " + x.report + " " + ctl; ok = x.p->open(String(cl.data(), cl.size()), x.streams, env); }
+        else ok = x.p->open(String(g_child.data(), g_child.size()), lst, x.streams, env);
+        if (!ok) failf(ctx, "open-failed", "pair: open() of child " + who + " returned false");
+        x.pid = (pid_t)x.p->getProcessId();
+        if (y.step >= 1 && y.step < 5) ctx.label("pair_second_child_started_while_first_alive");
+        if (y.step >= 3 && y.step < 5) ctx.label("pair_open_after_other_closed_stdin");
+        break;
+      }
+      case 1: {
+        size_t off = 0;
+        while (off < x.in.size()) { ssize w = x.p->write(x.in.data() + off, x.in.size() - off); if (w <= 0) failf(ctx, "write-failed", "pair: write() to child " + who + " returned " + std::to_string((long)w)); off += (size_t)w; }
+        break;
+      }
+      case 2: x.p->close(Process::stdinStream); if (y.step >= 1 && y.step < 5) { overlapAtClose = true; ctx.label("pair_stdin_closed_while_other_child_alive"); } break;
+      case 3: {
+        char* buf = (char*)malloc(8192); uint open_ = x.streams & (Process::stdoutStream | Process::stderrStream), atEof = 0; std::string gotErr;
+        while (open_ & ~atEof) {
+          uint s = open_ & ~atEof;
+          ssize r = x.p->read(buf, 8192, s);
+          if (r < 0) failf(ctx, "read-failed", "pair: read() from child " + who + " returned -1, errno " + std::to_string(errno) + (y.step >= 5 ? " (after the other child was joined)" : ""));
+          if (r == 0) { atEof |= s; continue; }
+          (s == Process::stderrStream ? gotErr : x.got).append(buf, (size_t)r);
+        }
+        free(buf);
+        if (x.errToo && gotErr != pattern(7, 2)) failf(ctx, "mismatch:stderr", "pair: child " + who + " wrote 7 bytes to stderr, read " + std::to_string(gotErr.size()));
+        break;
+      }
+      default: {
+        uint32 ec = 0xfffa2;
+        if (!x.p->join(ec)) failf(ctx, "join-failed", "pair: join() of child " + who + " returned false");
+        if ((long)ec != x.code) failf(ctx, "mismatch:exit-code", "pair: join() of child " + who + " reported exit code " + std::to_string(ec) + ", it exited with " + std::to_string(x.code));
+        if (y.step >= 1 && y.step < 5) ctx.label("pair_join_while_other_child_alive");
+        break;
+      }
+    }
+  }
+  (void)overlapAtClose;
+  for (int k = 0; k < 2; ++k) {
+    Side& x = S[k]; std::string who = k ? "B" : "A";
+    delete x.p;
+    if (x.got != x.expOut) {
+      size_t q = 0; while (q < x.got.size() && q < x.expOut.size() && x.got[q] == x.expOut[q]) ++q;
+      failf(ctx, "mismatch:stdout", "pair: child " + who + ": read " + std::to_string(x.got.size()) + " bytes until end-of-file, the child wrote " + std::to_string(x.expOut.size()) + "; first difference at offset " + std::to_string(q));
+    }
+    Report rep; std::string text;
+    if (!readFile(x.report, text)) failf(ctx, "no-report", "pair: child " + who + " left no report");
+    std::string bad = parseReport(text, rep);
+    if (!bad.empty()) failf(ctx, "bad-report", "pair: child " + who + ": " + bad);
+    if (rep.done != 0) failf(ctx, "child-incomplete", "pair: child " + who + " did not finish its stream traffic cleanly (D " + std::to_string(rep.done) + ")");
+    if (rep.inLen != (long)x.in.size() || rep.inHash != fnv(x.in)) failf(ctx, "mismatch:stdin", "pair: wrote " + std::to_string(x.in.size()) + " bytes to the stdin of child " + who + ", it read " + std::to_string(rep.inLen));
+    unlink(x.report.c_str());
+  }
+}
+}  // namespace
+
 void pbt_run(const Case& c, Ctx& ctx) {
   setenv(MARKER, "init", 1);
   int fds0 = countFds();
@@ -512,6 +604,10 @@ void pbt_run(const Case& c, Ctx& ctx) {
         ++runs;
         runOne(op, pd, ctx, kept);
         pd = Pending();
+      } else if (op.name == "pair") {
+        if (runs >= 4) { ctx.count("skipped"); continue; }
+        ++runs;
+        runPair(op, ctx);
       } else ctx.count("unknown_op");
     }
     delete kept;
